@@ -98,26 +98,9 @@ class TinyExec:
     def call(self, meth, selfobj, *args, **kwargs):
         ci, fn = self.repo.method(self.cls, meth, self.path)
         deco = {dotted(d) for d in fn.decorator_list}
-        params = [a.arg for a in fn.args.args]
-        env = {}
-        if "staticmethod" not in deco:
-            env[params[0]] = selfobj
-            params = params[1:]
-        for p, a in zip(params, args):
-            env[p] = a
-        env.update(kwargs)
-        defaults = dict(zip([a.arg for a in fn.args.args][len(fn.args.args) - len(fn.args.defaults):], fn.args.defaults))
-        for p in params:
-            if p not in env:
-                if p in defaults:
-                    env[p] = self.ev(defaults[p], {}, selfobj)
-                else:
-                    raise Unsupported("missing argument %s" % p)
-        try:
-            self.run(fn.body, env, selfobj)
-        except _Return as r:
-            return r.v
-        return None
+        if "staticmethod" in deco:
+            return self.call_function(fn, list(args), kwargs, selfobj)
+        return self.call_function(fn, [selfobj] + list(args), kwargs, selfobj)
 
     def run(self, stmts, env, so):
         for st in stmts:
@@ -156,9 +139,29 @@ class TinyExec:
                 rhs = self.ev(st.value, env, so)
                 op = type(st.op)
                 new = cur + rhs if op is ast.Add else cur - rhs if op is ast.Sub else cur * rhs if op is ast.Mult else None
-                if new is None or not isinstance(st.target, ast.Name):
-                    raise Unsupported("augassign")
-                env[st.target.id] = new
+                if new is None:
+                    raise Unsupported("augassign operator")
+                if isinstance(st.target, ast.Name):
+                    env[st.target.id] = new
+                elif isinstance(st.target, ast.Attribute) and isinstance(self._try(st.target.value, env, so), Fake):
+                    setattr(self._try(st.target.value, env, so), st.target.attr, new)
+                elif isinstance(st.target, ast.Subscript) and isinstance(self._try(st.target.value, env, so), (dict, list)):
+                    self._try(st.target.value, env, so)[self.ev(st.target.slice, env, so)] = new
+                else:
+                    raise Unsupported("augassign target")
+            elif isinstance(st, ast.Delete):
+                for t in st.targets:
+                    if isinstance(t, ast.Subscript) and isinstance(self._try(t.value, env, so), (dict, list)):
+                        base = self._try(t.value, env, so)
+                        if isinstance(t.slice, ast.Slice):
+                            lo, hi, stp = [self.ev(x, env, so) if x is not None else None for x in (t.slice.lower, t.slice.upper, t.slice.step)]
+                            del base[lo:hi:stp]
+                        else:
+                            del base[self.ev(t.slice, env, so)]
+                    elif isinstance(t, ast.Name) and t.id in env:
+                        del env[t.id]
+                    else:
+                        raise Unsupported("del target")
             elif isinstance(st, ast.For):
                 for item in self.ev(st.iter, env, so):
                     if isinstance(st.target, ast.Name):
@@ -181,6 +184,8 @@ class TinyExec:
                     self.run(st.orelse, env, so)
             elif isinstance(st, ast.Raise):
                 if st.exc is None:
+                    if env.get("__exc__") is not None:
+                        raise env["__exc__"]
                     raise Unsupported("bare raise")
                 exc = self.ev(st.exc, env, so)
                 if isinstance(exc, type) and issubclass(exc, BaseException):
@@ -225,6 +230,9 @@ class TinyExec:
                         else:
                             names = [dotted(h.type)]
                         if any(n in EXC and isinstance(e, EXC[n]) for n in names):
+                            if h.name:
+                                env[h.name] = e
+                            env["__exc__"] = e
                             self.run(h.body, env, so)
                             break
                     else:
@@ -259,6 +267,8 @@ class TinyExec:
                 return self.stubs[n.id]
             if self._modfunc(n.id) is not None:
                 return FuncRef(self, self._modfunc(n.id))
+            if n.id in getattr(self.repo, "classes", {}):
+                return ("class", n.id)
             raise Unsupported("unbound %s" % n.id)
         if isinstance(n, ast.Tuple):
             return tuple(self.ev(e, env, so) for e in n.elts)
@@ -368,9 +378,9 @@ class TinyExec:
                 base0 = self.ev(n.func.value, env, so) if not isinstance(n.func.value, ast.Name) or n.func.value.id in env else None
                 if isinstance(base0, Fake) and callable(getattr(base0, n.func.attr, None)):
                     return getattr(base0, n.func.attr)(*args, **kwargs)
-                if isinstance(base0, list) and n.func.attr in ("append", "extend", "index", "count"):
+                if isinstance(base0, list) and n.func.attr in ("append", "extend", "index", "count", "pop", "insert", "remove", "copy"):
                     return getattr(base0, n.func.attr)(*args)
-                if isinstance(base0, dict) and n.func.attr in ("get", "keys", "values", "items"):
+                if isinstance(base0, dict) and n.func.attr in ("get", "keys", "values", "items", "pop", "update", "setdefault", "copy"):
                     return getattr(base0, n.func.attr)(*args)
             parts = d.split(".")
             if len(parts) == 2 and parts[0] in ("self", "cls", self.cls) and self.repo.has_method(self.cls, parts[1], self.path):
